@@ -12,9 +12,9 @@ import (
 	"fmt"
 	"go/ast"
 	"go/printer"
-	"os"
 	"go/token"
 	"go/types"
+	"os"
 	"strings"
 
 	"golang.org/x/tools/go/packages"
